@@ -1,6 +1,7 @@
 import Nsq.Gen.ToolsToFileFn
 import Nsq.Model.ToFileName
 import Nsq.Model.ToFileDisc
+import Nsq.Model.ToFileMain
 /-!
 Tie of the file-name model (`Nsq.Model.ToFileName`) to apps/nsq_to_file/file_logger.go by
 *translation*: `tools/go2lean` (kind `strfunc`) re-translates `computeFilenameFormat` and
@@ -73,5 +74,23 @@ theorem gzipLevel_accepted_is_valid (l : Int) (h : Nsq.Gen.ToolsToFileFn.gzipLev
     -2 ≤ l ∧ l ≤ 9 := by
   have := (gzipLevel_accepted_iff l).mp h
   omega
+
+/-! ### the other start-up checks of `main()` -/
+
+/-- the model's refusal predicate is exactly the disjunction of the eight translated `log.Fatal` conditions -/
+theorem main_refusals_eq (o : Nsq.Model.ToFileMain.MainOpts) :
+    Nsq.Model.ToFileMain.refuses o =
+      (Nsq.Gen.ToolsToFileFn.mainNoChannel o.channel
+       || Nsq.Gen.ToolsToFileFn.mainBadConnectTimeout o.connectTimeout
+       || Nsq.Gen.ToolsToFileFn.mainBadRequestTimeout o.requestTimeout
+       || Nsq.Gen.ToolsToFileFn.mainNoAddress o.nNsqd o.nLookupd
+       || Nsq.Gen.ToolsToFileFn.mainBothAddresses o.nNsqd o.nLookupd
+       || Nsq.Gen.ToolsToFileFn.gzipLevelRejected o.gzipLevel
+       || Nsq.Gen.ToolsToFileFn.mainNoTopic o.nTopics o.pattern
+       || Nsq.Gen.ToolsToFileFn.mainPatternNeedsLookupd o.nTopics o.nLookupd) := by
+  unfold Nsq.Model.ToFileMain.refuses Nsq.Gen.ToolsToFileFn.mainNoChannel Nsq.Gen.ToolsToFileFn.mainBadConnectTimeout
+    Nsq.Gen.ToolsToFileFn.mainBadRequestTimeout Nsq.Gen.ToolsToFileFn.mainNoAddress Nsq.Gen.ToolsToFileFn.mainBothAddresses
+    Nsq.Gen.ToolsToFileFn.gzipLevelRejected Nsq.Gen.ToolsToFileFn.mainNoTopic Nsq.Gen.ToolsToFileFn.mainPatternNeedsLookupd
+  simp [List.length_eq_zero_iff]
 
 end Nsq.Tie.ToolsToFileFn
